@@ -98,6 +98,23 @@ def _g(e, k):
 
 
 # --------------------------------------------------------------------------- isomorphism oracle
+def _same_values(u, v):
+    """== on value dictionaries, with nan equal to nan"""
+    if u.keys() != v.keys():
+        return False
+    for k in u:
+        x, y = u[k], v[k]
+        if x == y:
+            continue
+        try:
+            if x != x and y != y:
+                continue
+        except Exception:
+            pass
+        return False
+    return True
+
+
 def iso(c1, c2):
     """None when the two circuits have the same component ids, kinds, value dictionaries and terminal
     order under ONE bijection of node labels that maps ground to ground; else a description."""
@@ -118,7 +135,7 @@ def iso(c1, c2):
         b = by2[a.id]
         if a.type != b.type:
             return f"{a.id}: kind {a.type} != {b.type}"
-        if dict(a.value) != dict(b.value):
+        if not _same_values(dict(a.value), dict(b.value)):
             return f"{a.id}: value {dict(a.value)} != {dict(b.value)}"
         if len(a.nodes) != len(b.nodes):
             return f"{a.id}: terminal count {len(a.nodes)} != {len(b.nodes)}"
